@@ -15,6 +15,7 @@
 (*   EndLoop          _validate_loop, after the body: the scope is dropped *)
 (*   Invalid          validate_response: not exactly one known keyword     *)
 (*   Finish           validate_response returns: the sample is accepted    *)
+(* (Next takes each of them over the tokens of its statement kind: Take*.) *)
 (* State: the chain of lexical scopes (name -> type shape, what the code   *)
 (* keeps in var_defs_), the tokens consumed so far (position), the verdict *)
 (* ("running", "accepted" or the class of samplegen_utils.types that       *)
@@ -376,14 +377,15 @@ Depth == Len(scopes) - 1
 
 Init == /\ phase = "request" /\ req = <<>> /\ bases = <<>> /\ scopes = <<RootScope>> /\ prog = <<>> /\ obs = <<>>
         /\ verdict = "running"
-Next == \/ \E es \in ReqLists : ValidateRequest(es)
-        \/ (NStmts < MaxLen /\ "define" \in Kinds /\ \E t \in DefineToks(Lvals) : Step(t))
-        \/ (NStmts < MaxLen /\ \E k \in Kinds \cap {"print", "comment"} : \E t \in FormatToks(k) : Step(t))
-        \/ (NStmts < MaxLen /\ "write_file" \in Kinds /\ \E t \in WriteToks({"filename", "contents"}) : Step(t))
-        \/ (NStmts < MaxLen /\ "invalid" \in Kinds /\ \E t \in OtherToks : Step(t))
-        \/ (NStmts < MaxLen /\ Depth < MaxDepth /\ "loop" \in Kinds /\ \E t \in LoopToks(LoopForms) : Step(t))
-        \/ Step(EndTok)
-        \/ Finish
+\* one disjunct per action, each over the tokens of its statement kind
+TakeRequest   == \E es \in ReqLists : ValidateRequest(es)
+TakeDefine    == NStmts < MaxLen /\ "define" \in Kinds /\ \E t \in DefineToks(Lvals) : Define(t)
+TakeFormat    == NStmts < MaxLen /\ \E k \in Kinds \cap {"print", "comment"} : \E t \in FormatToks(k) : Format(t)
+TakeWriteFile == NStmts < MaxLen /\ "write_file" \in Kinds /\ \E t \in WriteToks({"filename", "contents"}) : WriteFile(t)
+TakeInvalid   == NStmts < MaxLen /\ "invalid" \in Kinds /\ \E t \in OtherToks : Invalid(t)
+TakeLoop      == NStmts < MaxLen /\ Depth < MaxDepth /\ "loop" \in Kinds /\ \E t \in LoopToks(LoopForms) : Loop(t)
+TakeEndLoop   == EndLoop(EndTok)
+Next == TakeRequest \/ TakeDefine \/ TakeFormat \/ TakeWriteFile \/ TakeInvalid \/ TakeLoop \/ TakeEndLoop \/ Finish
 Done == verdict # "running"
 (* The same actions driven by random tokens (TLC -simulate over a vocabulary too wide to enumerate the successors  *)
 (* of a state): one random token per statement kind is drawn per step and, seven times out of eight, one that is     *)
